@@ -160,10 +160,15 @@ Proof.
   destruct (fut_done (fut_of (set_caller w c CTimedOut) c)); cbn; split; reflexivity.
 Qed.
 
+Lemma caller_cancel_sq w c : Rsat (sq w) (caller_cancel w c).
+Proof.
+  unfold caller_cancel. destruct (aget CNone c (callers w)); try apply sq_refl; try (cbn; split; reflexivity).
+  destruct (fut_done (fut_of (set_caller w c CCancelled) c)); cbn; split; reflexivity.
+Qed.
+
 Lemma caller_wake_sq w c : Rsat (sq w) (caller_wake w c).
 Proof.
-  unfold caller_wake. destruct (aget CNone c (callers w)); try apply sq_refl.
-  - cbn. split; reflexivity.
+  unfold caller_wake. destruct (aget CNone c (callers w)); try apply sq_refl; try (cbn; split; reflexivity).
   - assert (G : Rsat (sq w) (match cur (cx w) with
                          | Some k => if Nat.eqb k c then set_state w Idle HExpired else Ok w
                          | None => Ok w end)).
@@ -177,7 +182,8 @@ Proof. unfold conn_made, conn_lost. split; destruct (state (cx w)); try apply sq
 
 Lemma do_write_sq w n c : Rsat (sq w) (do_write cmds plan w n c).
 Proof.
-  unfold do_write. destruct (w_fail (plan n)); [apply set_state_sq|].
+  unfold do_write. destruct (w_fail (plan n)).
+  { unfold fail_write. destruct (cur (cx w)) as [k|]; [|apply sq_refl]. destruct (Nat.eqb k c); [|apply sq_refl]. apply set_state_sq. }
   cbn. destruct (w_echo (plan n)); destruct (w_rply (plan n)); destruct (rx_hdr (cmds c)); cbn; split; reflexivity.
 Qed.
 
@@ -246,10 +252,10 @@ Proof.
     + cbn. split; reflexivity.
   - apply Fr. cbn. split; reflexivity.
   - apply Fr, do_write_sq.
-  - apply caller_start_Q, Q.
+  - destruct (aget CNone c (callers w)); try (apply Fr, sq_refl). apply caller_start_Q, Q.
   - apply Fr, caller_timer_sq.
   - apply Fr, caller_wake_sq.
-  - apply Fr. destruct e as [k|p| | |d]; [cbn; split; reflexivity|apply pkt_rcvd_sq|apply conn_sq|apply conn_sq|cbn; split; reflexivity].
+  - apply Fr. destruct e as [k|p| | |d|k]; [cbn; split; reflexivity|apply pkt_rcvd_sq|apply conn_sq|apply conn_sq|cbn; split; reflexivity|apply caller_cancel_sq].
 Qed.
 
 Lemma boundary_sq lifo w w' : boundary lifo w = Some w' -> sq w w'.
